@@ -87,7 +87,12 @@ if a.checks:
     try:
         for c in a.checks.split(","):
             t0 = time.time()
+            ev = "/verif/evidence/%s.json" % c
+            keep = open(ev).read() if os.path.exists(ev) else None
             rc, out = sh("./check %s --tier quick" % c, cwd="/verif")
+            if keep is not None:
+                # the evidence file committed must come from a run on the unchanged tree
+                open(ev, "w").write(keep)
             res["checks"][c] = {"exit": rc, "caught": rc == 1 and "VIOLATION" in out,
                                 "lines": [l for l in out.splitlines() if l.startswith(("VIOLATION", "OK", "KNOWN"))][:4],
                                 "wall_s": round(time.time() - t0, 1)}
